@@ -23,6 +23,14 @@ type SpecEnv struct {
 	bound  map[string]bool
 	tparams map[string]types.Type
 	locals  map[string]*Loc // named local variables that live in memory cells
+	cells   map[string]*Loc // every named variable that lives in a cell, parameters included (current(x))
+}
+
+func (env *SpecEnv) cell(name string, l *Loc) {
+	if env.cells == nil {
+		env.cells = map[string]*Loc{}
+	}
+	env.cells[name] = l
 }
 
 func newSpecEnv(vc *VC, pkg string) *SpecEnv {
@@ -698,6 +706,15 @@ func (env *SpecEnv) call(e *SExpr, hint types.Type) Val {
 		need(1)
 		r := env.refOf(args[0])
 		return Val{T: tBool, S: and(app(">=", r, vc.get(env.old, vc.brkComp())), app("<", r, vc.get(env.mem, vc.brkComp())))}
+	case "current":
+		// current(x): the value now held by the source variable x. For a parameter that a closure
+		// captures, the bare name is the argument the caller passed; the variable itself lives in a
+		// cell that the closures read.
+		need(1)
+		if l, ok := env.cells[args[0].Name]; ok {
+			return Val{T: l.T, S: vc.loadLoc(env.mem, l)}
+		}
+		return env.eval(args[0], nil)
 	case "allocated":
 		need(1)
 		r := env.refOf(args[0])
